@@ -12,6 +12,7 @@ import (
 	"encoding/json"
 	"math/rand"
 	"sort"
+	"sync"
 	"testing"
 
 	corev1 "k8s.io/api/core/v1"
@@ -72,26 +73,82 @@ func (w *c06World) c19Restart(o *c06Op) vu.Ev {
 		pods = append(pods, pod)
 	}
 	// restart: fresh cache, fed only through the informer handler
+	rng := rand.New(rand.NewSource(int64(o.Variant)))
+	rng.Shuffle(len(pods), func(i, j int) { pods[i], pods[j] = pods[j], pods[i] })
+	first, firstObs := w.c19Rebuild(pods, rng)
+	w.rm = first
+	ev := vu.Ev{"op": "restart", "variant": o.Variant, "persisted": len(pods), "obs": firstObs}
+	// the same rebuild is run again on further fresh caches (the concurrent deliveries interleave differently every time):
+	// every outcome that differs from the first one is reported as well ("reprobe" events, same demand)
+	if len(pods) > 1 {
+		want, _ := json.Marshal(firstObs)
+		for k := 0; k < c19Reprobes; k++ {
+			_, obs := w.c19Rebuild(pods, rng)
+			if got, _ := json.Marshal(obs); string(got) != string(want) {
+				w.c19Extra = append(w.c19Extra, vu.Ev{"op": "reprobe", "obs": obs})
+				break
+			}
+		}
+	}
+	return ev
+}
+
+var c19Reprobes = 24
+
+func (w *c06World) c19Rebuild(pods []*corev1.Pod, rng *rand.Rand) (*resourceManager, interface{}) {
 	fresh := &resourceManager{
 		numaAllocateStrategy:   w.rm.numaAllocateStrategy,
 		topologyOptionsManager: w.tom,
 		nodeAllocations:        map[string]*NodeAllocation{},
 	}
 	h := &podEventHandler{resourceManager: fresh}
-	rng := rand.New(rand.NewSource(int64(o.Variant)))
-	rng.Shuffle(len(pods), func(i, j int) { pods[i], pods[j] = pods[j], pods[i] })
-	for _, pod := range pods {
+	deliver := func(pod *corev1.Pod, how int) {
+		if how >= 3 {
+			// a scheduler that watched the pod's whole life (stand-by replica, or one that was restarted while the pod was
+			// in its binding cycle): pending -> the pre-bind patch adds the annotations -> the bind sets the node name
+			pending := pod.DeepCopy()
+			pending.Spec.NodeName, pending.Status.Phase = "", corev1.PodPending
+			bare := pending.DeepCopy()
+			delete(bare.Annotations, extension.AnnotationResourceStatus)
+			h.OnAdd(bare, false)
+			h.OnUpdate(bare, pending)
+			h.OnUpdate(pending, pod)
+			return
+		}
 		h.OnAdd(pod, true)
-		switch rng.Intn(3) {
+		switch how {
 		case 0:
 			h.OnAdd(pod.DeepCopy(), true) // duplicate add
 		case 1:
 			h.OnUpdate(pod, pod.DeepCopy()) // update carrying the same allocation
 		}
 	}
-	w.rm = fresh
-	return vu.Ev{"op": "restart", "variant": o.Variant, "persisted": len(pods),
-		"obs": c06Project(fresh.GetNodeAllocation(c06Node), w.topo.NumCPUs, w.numaIDs)}
+	hows := make([]int, len(pods))
+	for i := range pods {
+		hows[i] = rng.Intn(5)
+	}
+	if workers := 1 + rng.Intn(3); workers > 1 && len(pods) > 1 {
+		// the pod informer and the reservation informer (reserve pods) feed the same handler from different goroutines
+		start := make(chan struct{})
+		var wg sync.WaitGroup
+		for k := 0; k < workers; k++ {
+			wg.Add(1)
+			go func(k int) {
+				defer wg.Done()
+				<-start
+				for i := k; i < len(pods); i += workers {
+					deliver(pods[i], hows[i])
+				}
+			}(k)
+		}
+		close(start)
+		wg.Wait()
+	} else {
+		for i, pod := range pods {
+			deliver(pod, hows[i])
+		}
+	}
+	return fresh, c06Project(fresh.GetNodeAllocation(c06Node), w.topo.NumCPUs, w.numaIDs)
 }
 
 func TestVerifC19Numa(t *testing.T) {
